@@ -268,6 +268,7 @@ def do_handout(w, op):
     if after != before:
         w.fail("handout_aliases_model", "%s changed the model: %s -> %s" % (where, brief(before), brief(after)))
     w.check_untouched(set(), where)
+    w.check_book(A, where)       # whatever the caller did to the object he was handed, the model's own bookkeeping stays sound
     return what
 
 
